@@ -66,13 +66,16 @@ func genC08(seed uint64, run int, tier string) Scenario {
 			}
 		}
 		startTag := `<rpc-reply xmlns="urn:ietf:params:xml:ns:netconf:base:1.0"`
+		sep := " "
 		if r.IntN(6) == 0 {
-			// namespace declarations in front of the message-id attribute
+			// namespace declarations in front of the message-id attribute, on one line or one
+			// attribute per line
+			sep = pick(r, " ", " ", "\n", "\n    ", "\n\t")
 			for k := between(r, 3, 8); k > 0; k-- {
-				startTag += fmt.Sprintf(` xmlns:%s="urn:example:params:xml:ns:yang:%s"`, word(r, lower, 2, 5), word(r, lower+"-", 10, 40))
+				startTag += fmt.Sprintf(`%sxmlns:%s="urn:example:params:xml:ns:yang:%s"`, sep, word(r, lower, 2, 5), word(r, lower+"-", 10, 40))
 			}
 		}
-		rep := peer.NCReply{Mode: mode, Payload: fmt.Sprintf(startTag+` message-id="{MID}"><data><token>reply-%d-%s</token><descr>%s</descr>%s</data></rpc-reply>`, i, word(r, lower, 4, 8), word(r, lower+"  \n", 0, 24), pick(r, "", "", "", "<subscription-id>"+word(r, digits, 1, 6)+"</subscription-id>", "<mdt-subscriptions><subscription-id>2147483648</subscription-id></mdt-subscriptions>"))}
+		rep := peer.NCReply{Mode: mode, Payload: fmt.Sprintf(startTag+sep+`message-id="{MID}"><data><token>reply-%d-%s</token><descr>%s</descr>%s</data></rpc-reply>`, i, word(r, lower, 4, 8), word(r, lower+"  \n", 0, 24), pick(r, "", "", "", "<subscription-id>"+word(r, digits, 1, 6)+"</subscription-id>", "<mdt-subscriptions><subscription-id>2147483648</subscription-id></mdt-subscriptions>"))}
 		if mode == "late" {
 			rep.DelayUS = sc.TimeoutOpsUS * int64(between(r, 15, 30)) / 10
 		}
@@ -81,6 +84,11 @@ func genC08(seed uint64, run int, tier string) Scenario {
 		}
 		sc.Server.Replies = append(sc.Server.Replies, rep)
 		op := NCOp{Kind: pick(r, "get", "getconfig", "lock", "discard"), A: "running"}
+		if mode == "late" && !long && r.IntN(3) == 0 {
+			// the call brings a timeout of its own, longer than the session's: its reply comes
+			// after the session's timeout and well within the call's
+			op.TimeoutUS = rep.DelayUS * 2
+		}
 		if mode == "never" && r.IntN(2) == 0 {
 			// sched-hold fault: the caller only gets to wait for the reply after the deadline has
 			// passed (it must still see the timeout, not a reply that does not exist)
